@@ -45,8 +45,12 @@ RULES = {
     "follow the declared shape, not the array's memory layout",
     "R6": "packing constants: masks are ((1<<K)-1) shifted by multiples of K, shifts are multiples of K below 8, "
     "strides and padding moduli are 8/K in each helper",
+    "R13": "packed bytes never come from an unpacked cache: in a tensor class, a field that some method fills with the result of an "
+    "unpacking helper (unpack_4bitx2 / unpack_2bitx4: one element per byte) holds *decoded* data; tobytes()/tofile() of that class "
+    "do not produce their bytes from that field (`self.<field>.tobytes()` …) unless they pack again - for 2- and 4-bit types the "
+    "decoded array has size, not ceil(size x bitwidth / 8), bytes, so the result depends on whether numpy() was called before",
 }
-FLOORS = {"R1": 120, "R2": 4, "R3": 8, "R4": 1, "R5": 6, "R6": 20, "R7": 30, "R8": 4, "R9": 2, "R10": 1, "R11": 1, "R12": 3}
+FLOORS = {"R1": 120, "R2": 4, "R3": 8, "R4": 1, "R5": 6, "R6": 20, "R7": 30, "R8": 4, "R9": 2, "R10": 1, "R11": 1, "R12": 3, "R13": 1}
 EXPLANATION = (
     "Evaluates the enum and table literals of _enums/_core/tensor_adapters with ast only and compares them with "
     "each other; derives the sub-byte classes from _BITWIDTH_MAP and checks every storage guard, packing-helper "
@@ -719,14 +723,17 @@ def rule_r9(ctx):
     maps, positions = [], []
     for f in cls.methods.values():
         me = f.params[0] if f.params else "self"
+        # the mapping itself or a local bound to it
+        raw_names = {f"{me}.raw"} | {a.targets[0].id for a in own_nodes(f.node) if isinstance(a, ast.Assign) and isinstance(a.targets[0], ast.Name)
+                                    and norm(a.value) == f"{me}.raw"}
         for n in own_nodes(f.node):
             if isinstance(n, ast.Call) and dotted_of(n.func) == "mmap.mmap":
                 maps.append((f, n))
-            if isinstance(n, ast.Call) and (dotted_of(n.func) or "").split(".")[-1] == "frombuffer" and n.args and norm(n.args[0]) == f"{me}.raw":
+            if isinstance(n, ast.Call) and (dotted_of(n.func) or "").split(".")[-1] == "frombuffer" and n.args and norm(n.args[0]) in raw_names:
                 off = next((k.value for k in n.keywords if k.arg == "offset"), None)
                 if off is not None:
                     positions.append((f, n, off, "frombuffer offset="))
-            if isinstance(n, ast.Subscript) and norm(n.value) == f"{me}.raw" and isinstance(n.slice, ast.Slice):
+            if isinstance(n, ast.Subscript) and norm(n.value) in raw_names and isinstance(n.slice, ast.Slice):
                 for part, label in ((n.slice.lower, "slice start"), (n.slice.upper, "slice end")):
                     if part is not None:
                         positions.append((f, n, part, label))
@@ -876,7 +883,54 @@ def rule_r11(ctx):
     ctx.require(n >= 1, "no byte-count rounding found on the tensor byte paths")
 
 
+def rule_r13(ctx):
+    n = 0
+    for m in ctx.repo.pkg_modules():
+        for c in m.classes.values():
+            funcs = list(c.methods.values())
+            unpacked = set()
+            for f in funcs:
+                al = {}
+                for a in own_nodes(f.node):
+                    if isinstance(a, ast.Assign) and isinstance(a.value, (ast.Call, ast.Attribute, ast.Name)):
+                        has_unpack = any(isinstance(x, ast.Call) and (dotted_of(x.func) or "").split(".")[-1].startswith("unpack_") for x in ast.walk(a.value)) or any(
+                            isinstance(x, ast.Name) and x.id in al for x in ast.walk(a.value))
+                        for t in a.targets:
+                            if has_unpack and isinstance(t, ast.Name):
+                                al[t.id] = True
+                            if has_unpack and isinstance(t, ast.Attribute) and isinstance(t.value, ast.Name) and t.value.id == f.params[0]:
+                                unpacked.add(t.attr)
+            if not unpacked:
+                continue
+            for f in funcs:
+                if f.name not in ("tobytes", "tofile"):
+                    continue
+                n += 1
+                selfn = f.params[0]
+                aliases = {a.targets[0].id for a in own_nodes(f.node) if isinstance(a, ast.Assign) and isinstance(a.targets[0], ast.Name)
+                           and isinstance(a.value, ast.Attribute) and isinstance(a.value.value, ast.Name) and a.value.value.id == selfn and a.value.attr in unpacked}
+                bad = None
+                for call in calls_in(f):
+                    if isinstance(call.func, ast.Attribute) and call.func.attr in ("tobytes", "tofile", "view", "data"):
+                        recv = call.func.value
+                        if (isinstance(recv, ast.Attribute) and isinstance(recv.value, ast.Name) and recv.value.id == selfn and recv.attr in unpacked) or (
+                                isinstance(recv, ast.Name) and recv.id in aliases):
+                            bad = call
+                    if dotted_of(call.func) in ("bytes", "memoryview") and call.args and isinstance(call.args[0], ast.Attribute) \
+                            and isinstance(call.args[0].value, ast.Name) and call.args[0].value.id == selfn and call.args[0].attr in unpacked:
+                        bad = call
+                repacks = any((dotted_of(x.func) or "").split(".")[-1].startswith(("pack_", "_create_np_array_for_byte")) for x in calls_in(f))
+                ctx.check("R13", f"{c.name}.{f.name}: bytes are not taken from the unpacked field(s) {sorted(unpacked)}", bad is None or repacks, f, bad if bad is not None else f.node,
+                          f"`{norm(bad) if bad is not None else ''}` serves the bytes of `self.{sorted(unpacked)[0]}`, which {c.name} fills with *unpacked* elements for 2- and 4-bit "
+                          "types (one element per byte): the result has `size` bytes instead of ceil(size x bitwidth / 8) and differs from the packed bytes "
+                          "in the file, from tofile() and from the array-backed tensor - but only once numpy() or an earlier tobytes() has filled the cache",
+                          how="fields assigned from unpack_* results in the class vs receivers of byte-producing calls in tobytes/tofile",
+                          construct=f"bytes from unpacked field in {c.name}.{f.name}")
+    ctx.require(n >= 1, "no tensor class with an unpacked cache and a tobytes/tofile method found")
+
+
 def run(ctx):
+    rule_r13(ctx)
     rule_r12(ctx)
     rule_r11(ctx)
     rule_r10(ctx)
